@@ -992,6 +992,65 @@ theorem sCtorPtrW_eq {w N : Nat} (hN : N < 2 ^ w) {junk arg : List Byte} (h0 : (
   simp only [bind, Except.bind]
   rw [stored_small (show (arg.takeWhile nz).length < 2 ^ w by omega), stored_small hN]
 
+theorem sreg_size_le {c : SCfg} {m : SRegs} {sp : SpecS} (h : SInv c m sp) {r : Nat} {s : SStr} (hs : m r = some s) :
+    s.size ≤ c.N := by
+  have hr := h r
+  rw [hs] at hr
+  cases hq : sp r with
+  | none => rw [hq] at hr; exact hr.elim
+  | some es => rw [hq] at hr; rw [hr.size]; exact hr.le
+
+/-- what a C-string argument must satisfy for a `w`-bit counter: its length fits -/
+def SOp.fitsW (w : Nat) : SOp → Prop
+  | .ptr _ arg => arg.length ≤ 2 ^ w
+  | _ => True
+
+theorem sstepW_eq {w : Nat} {c : SCfg} {m : SRegs} {sp : SpecS} (h : SInv c m sp) (hN : c.N < 2 ^ w) (op : SOp)
+    (hwf : op.wf) (hfit : op.fitsW w) : sstepW w c m op = sstep c m op := by
+  cases op with
+  | ptr r arg =>
+    simp only [sstepW, sstep]
+    cases hd : decide (r < c.K) <;> cases hr : m r <;> try rfl
+    simp only []
+    rw [sCtorPtrW_eq hN hwf hfit]
+  | ptrlen r arg n =>
+    simp only [sstepW, sstep]
+    cases hd : decide (r < c.K ∧ c.port = true ∧ n ≤ arg.length) <;> cases hr : m r <;> try rfl
+    simp only []
+    rw [sCtorPtrLenW_eq hN]
+  | push r ch =>
+    simp only [sstepW, sstep]
+    cases hd : decide (r < c.K) <;> cases hr : m r <;> try rfl
+    rename_i s
+    simp only []
+    rw [sPushW_eq hN s ch (sreg_size_le h hr)]
+  | add r ch =>
+    simp only [sstepW, sstep]
+    cases hd : decide (r < c.K ∧ c.port = true) <;> cases hr : m r <;> try rfl
+    rename_i s
+    simp only []
+    rw [sPushW_eq hN s ch (sreg_size_le h hr)]
+  | new r => rfl
+  | copy r s => rfl
+  | clear r => rfl
+  | cstr r => rfl
+  | get r i => rfl
+  | set r i ch => rfl
+  | del r => rfl
+
+theorem srunW_eq {w : Nat} {c : SCfg} (hj : c.junk.length = c.N + 1) (hN : c.N < 2 ^ w) :
+    ∀ (ops : List SOp) (m : SRegs) (sp : SpecS), SInv c m sp → (∀ op, op ∈ ops → op.wf ∧ op.fitsW w) →
+    srunW w c ops m = srun c ops m := by
+  intro ops
+  induction ops with
+  | nil => intro m sp _ _; rfl
+  | cons op ops ih =>
+    intro m sp h hwf
+    have h0 := hwf op (List.mem_cons_self ..)
+    obtain ⟨m1, h1, h2⟩ := sstep_refines hj h op h0.1
+    simp only [srunW, srun, sstepW_eq h hN op h0.1 h0.2, h1, bind, Except.bind]
+    rw [ih m1 _ h2 (fun o ho => hwf o (List.mem_cons_of_mem _ ho))]
+
 theorem sGetAny_inside {N : Nat} {s : SStr} {es : List Byte} (h : SAbs N s es) {i : Nat} (hi : i ≤ N) :
     ∃ b, sGetAny s i = .ok b := by
   have : i < s.data.length := by rw [h.len]; omega
